@@ -5,5 +5,6 @@ pub mod build;
 pub mod history;
 pub mod keys;
 pub mod oracle;
+pub mod rrdpserve;
 pub mod run;
 pub mod spec;
